@@ -10,7 +10,7 @@ from . import common
 
 ID = 'C12'
 LEVEL = 'exploration'
-RUNS = {'quick': 9000, 'thorough': 400000}
+RUNS = {'quick': 7000, 'thorough': 400000}
 WALL_CAP = {'quick': 150, 'thorough': 3000}
 
 SIZES = [0, 1, 5, 15, 16, 17, 63, 64, 65, 255, 256, 257, 900, 3000]
@@ -128,14 +128,32 @@ def scenario_for(seed, index, tier, _random_only=False):
         play.append(['ka', v])
         if rng.random() < 0.5:
             play.append(['pause', rng.choice([100, 1000, 50000])])
+    second = None
+    if not big and rng.random() < 0.08:
+        # a second Connection object in the same process with its own
+        # writers: the two must not influence each other
+        thr2 = []
+        for t in range(rng.choice([1, 2])):
+            ops = []
+            for _ in range(rng.randint(1, 5)):
+                ops.append([rng.choice(['q', 'q', 'f']), tag,
+                            rng.choice(SIZES)])
+                tag += 1
+            thr2.append(ops)
+        second = {'threads': thr2,
+                  'disc': {'by': rng.choice(['coord', 0]),
+                           'immediate': rng.random() < 0.3}}
     gran = 'line' if rng.random() < 0.85 else 'instr'
     return {
         'proto': proto, 'mode': mode, 'threshold': threshold,
         'threads': threads, 'disc': disc,
-        'server': {'conns': [{'login': login, 'play': play}]},
+        'second_party': second,
+        'server': {'conns': [{'login': login, 'play': play}] *
+                   (2 if second else 1)},
         'net': {'latency_us': rng.choice([50, 200, 2000])},
         'sched': {'granularity': 'line' if big else gran,
-                  'max_steps': 3000000 if big else 400000},
+                  'max_steps': 3000000 if big else
+                  (1500000 if gran == 'instr' else 400000)},
         'rand_seed': rng.randrange(2**32),
     }
 
@@ -153,74 +171,115 @@ def policy(rng, scenario):
     return Policy(p_sched=p, p_event=pe, name='rw(p=%s,pe=%s)' % (p, pe))
 
 
+def parties_of(scenario):
+    """A scenario describes one Connection, or (dual) two Connections living
+    in the same process, each with its own writers and disconnect."""
+    out = [scenario]
+    if scenario.get('second_party'):
+        out.append(scenario['second_party'])
+    return out
+
+
 def execute(scenario, tape):
     w = World(scenario, tape)
-    st = {'started': False, 'issued': {}, 'writers_done': 0, 'disc': None}
+    parties = parties_of(scenario)
+    sts = []
 
     def build(w):
         from minecraft.networking.connection import (Connection,
                                                      PlayingReactor)
         from minecraft.networking.packets import serverbound
-        errors = []
-        conn = Connection('sim.example', 25565, username='writer',
-                          allowed_versions=[scenario['proto']],
-                          handle_exception=lambda e, i: errors.append(e))
-        w.conn = conn
-        w.errors = errors
-        nthreads = len(scenario['threads'])
+        ready = {'n': 0}
 
-        def do_disconnect():
-            imm = scenario['disc']['immediate']
-            r = w.api('disconnect-imm' if imm else 'disconnect',
-                      conn.disconnect, immediate=imm)
-            st['disc'] = r
+        def party(pi, psc):
+            st = {'started': False, 'issued': {}, 'writers_done': 0,
+                  'disc': None, 'errors': [], 'name': 'writer%d' % pi}
+            sts.append(st)
+            errors = st['errors']
+            conn = Connection('sim.example', 25565, username=st['name'],
+                              allowed_versions=[scenario['proto']],
+                              handle_exception=lambda e, i: errors.append(e))
+            st['conn'] = conn
+            nthreads = len(psc['threads'])
 
-        def writer(k):
-            def run():
-                if k == 0:
-                    st['connect'] = w.api('connect', conn.connect)
-                    w.wait_until(lambda: isinstance(conn.reactor,
-                                                    PlayingReactor)
-                                 or errors, 20000000)
-                    st['started'] = True
-                else:
-                    w.wait_until(lambda: st['started'], 30000000)
-                if errors or not isinstance(conn.reactor, PlayingReactor):
+            def do_disconnect():
+                imm = psc['disc']['immediate']
+                r = w.api('disconnect-imm' if imm else 'disconnect',
+                          conn.disconnect, immediate=imm)
+                st['disc'] = r
+
+            def writer(k):
+                def run():
+                    if k == 0:
+                        st['connect'] = w.api('connect', conn.connect)
+                        w.wait_until(lambda: isinstance(conn.reactor,
+                                                        PlayingReactor)
+                                     or errors, 20000000)
+                        st['started'] = True
+                        ready['n'] += 1
+                    # all parties start writing together
+                    w.wait_until(lambda: ready['n'] == len(parties) or
+                                 any(s_['errors'] for s_ in sts), 30000000)
+                    if errors or not isinstance(conn.reactor,
+                                                PlayingReactor):
+                        st['writers_done'] += 1
+                        return
+                    for kind, tag, size in psc['threads'][k]:
+                        pkt = serverbound.play.PluginMessagePacket(
+                            channel='dst', data=struct.pack('>I', tag) +
+                            filler(tag, size))
+                        r = w.api('write-%s-%d' % (kind, tag),
+                                  conn.write_packet, pkt,
+                                  force=(kind == 'f'))
+                        st['issued'][tag] = (k, kind, size, r)
                     st['writers_done'] += 1
-                    return
-                for kind, tag, size in scenario['threads'][k]:
-                    pkt = serverbound.play.PluginMessagePacket(
-                        channel='dst', data=struct.pack('>I', tag) +
-                        filler(tag, size))
-                    r = w.api('write-%s-%d' % (kind, tag), conn.write_packet,
-                              pkt, force=(kind == 'f'))
-                    st['issued'][tag] = (k, kind, size, r)
-                st['writers_done'] += 1
-                if scenario['disc']['by'] == k:
+                    if psc['disc']['by'] == k:
+                        do_disconnect()
+                return run
+
+            for k in range(nthreads):
+                w.sim.spawn(writer(k), 'user%d.%d' % (pi, k))
+
+            def coord():
+                w.wait_until(lambda: st['writers_done'] == nthreads,
+                             60000000)
+                if psc['disc']['by'] == 'coord':
                     do_disconnect()
-            return run
+                w.wait_until(lambda: st['disc'] is not None, 60000000)
+                st['coord_done'] = True
+                w.wait_until(lambda: all(s_.get('coord_done')
+                                         for s_ in sts), 60000000)
+                ok = w.wait_until(lambda: common.all_net_done(w.sim),
+                                  5000000)
+                st['net_done'] = ok
+            w.sim.spawn(coord, 'coord%d' % pi)
 
-        for k in range(nthreads):
-            w.sim.spawn(writer(k), 'user%d' % k)
-
-        def coord():
-            w.wait_until(lambda: st['writers_done'] == nthreads, 60000000)
-            if scenario['disc']['by'] == 'coord':
-                do_disconnect()
-            w.wait_until(lambda: st['disc'] is not None, 60000000)
-            ok = w.wait_until(lambda: common.all_net_done(w.sim), 5000000)
-            st['net_done'] = ok
-        w.sim.spawn(coord, 'coord')
+        for pi, psc in enumerate(parties):
+            party(pi, psc)
 
     w.run(build)
     res = common.result_from_world(w)
-    check(scenario, w, st, res)
+    for pi, psc in enumerate(parties):
+        st = sts[pi] if pi < len(sts) else {}
+        app = next((a_ for a_ in w.server.apps
+                    if a_.login_name == 'writer%d' % pi), None)
+        psc2 = dict(psc, proto=scenario['proto'], mode=scenario['mode'],
+                    server=scenario['server'])
+        check(psc2, w, st, res, app)
+        if res.violations:
+            if len(parties) > 1:
+                res.violations[:] = [(sg + ':two-connections', d)
+                                     for sg, d in res.violations]
+            break
+    if len(parties) > 1 and not res.violations:
+        res.probes['two-connections-in-one-process'] = 1
     return res
 
 
-def check(scenario, w, st, res):
+def check(scenario, w, st, res, app=None):
     sim = w.sim
     V = res.violations
+    w_errors = st.get('errors', [])
 
     def ob():
         res.obligations += 1
@@ -231,6 +290,8 @@ def check(scenario, w, st, res):
     res.nontrivial = bool(sim.stats.get('preempt')) and \
         len(scenario['threads']) >= 1
     ob()
+    if sim.end_state == 'inconclusive':
+        return
     if sim.end_state != 'done':
         if sim.end_state in ('deadlock', 'step-cap', 'vtime-cap'):
             V.append(('C12/%s' % sim.end_state, repr(sim.end_detail)))
@@ -238,13 +299,12 @@ def check(scenario, w, st, res):
     for t in sim.threads:
         if t.kind == 'user' and t.exc is not None:
             raise common.HarnessError('user thread raised %r' % (t.exc,))
-    if not w.server.apps:
+    if app is None:
         V.append(('C12/no-connection', None))
         return
-    app = w.server.apps[0]
-    if not st.get('started') or not app.reached_play or w.errors \
+    if not st.get('started') or not app.reached_play or w_errors \
             and not st['issued']:
-        V.append(('C12/login-failed', repr(w.errors[:1]) + repr(app.errors)))
+        V.append(('C12/login-failed', repr(w_errors[:1]) + repr(app.errors)))
         return
     ids = ids_for(scenario['proto'])
     disc = st['disc']
@@ -350,12 +410,13 @@ def check(scenario, w, st, res):
                 V.append(('C12/send-during-immediate-disconnect', seq))
                 break
     # 6. after the socket was shut down no byte reaches the server
+    ci = app.conn.index
     shut = [seq for seq, tid, kind, d, _vt in sim.history
-            if kind == 'shutdown']
+            if kind == 'shutdown' and d == ci]
     if shut:
         ob()
         late = [seq for seq, tid, kind, d, _vt in sim.history
-                if kind == 'send' and seq > shut[0]]
+                if kind == 'send' and seq > shut[0] and d[0] == ci]
         if late:
             V.append(('C12/send-after-shutdown', late[:3]))
     # 7. the socket is closed: the server saw the client's FIN
@@ -373,6 +434,11 @@ def check(scenario, w, st, res):
 
 def shrink_scenario(sc):
     import copy
+    if sc.get('second_party'):
+        c = copy.deepcopy(sc)
+        c['second_party'] = None
+        c['server']['conns'] = c['server']['conns'][:1]
+        yield c
     # fewer threads
     if len(sc['threads']) > 1:
         for k in range(len(sc['threads']) - 1, -1, -1):
@@ -429,5 +495,5 @@ def evidence(tier, seed, m, d):
              'writes x final disconnect, framing mode, protocol) + seeded '
              'schedule tape; evaluations = oracle obligations checked; a run '
              'is non-trivial when at least one pre-emption fired; distinct = '
-             'distinct run digests (hash of every scheduler step and I/O '
+             '8% of the seeded scenarios run a second Connection object with its own writers in the same process; 6% contain a burst of 301..650 queued packets followed by the disconnect; distinct run digests (hash of every scheduler step and I/O '
              'event)' % DIRECTED[tier])
